@@ -335,6 +335,7 @@ def run_real(case):
       s.log('abort-call', None, n)
       test.abort_from_sig_int()
       s.log('abort-ret', None, n)
+      marks.setdefault('abort_returned_at', s.now)
     return aborter
 
   aux = [('ab%d' % (i + 1), mk_aborter(i + 1, k)) for i, k in enumerate(ks)] if mode == 'thread' else []
@@ -349,6 +350,8 @@ def run_real(case):
       def append(self, x):
         list.append(self, x)
         s = sched.SCHED
+        if s is not None and s is env.get('sched') and isinstance(x, str) and x.startswith('eb'):
+          marks.setdefault('body_started_at', {}).setdefault(x, s.now)
         # (only this run's scheduler: a body abandoned by an earlier case of this worker process may still be running)
         if s is not None and s is env.get('sched'):
           s.events.append((s.me().name if s.me() else '?', 'h', None, x))
@@ -427,6 +430,12 @@ def run_real(case):
   elif status == 'returned':
     rec_facts.append('X:no-record-handed-to-callbacks')
   rec_facts += sorted(set(lost_sigint))
+  if prog.get('conf', {}).get('cancel_timeout_s') == 0 and len(ks) == 1 and marks.get('abort_returned_at') is not None:
+    # no patience with a body that cannot be killed: the teardown of the entered group starts right after the abort,
+    # not when the stuck phase's own time-out would have run out
+    later = [t for e, t in (marks.get('body_started_at') or {}).items() if t > marks['abort_returned_at']]
+    if later and min(later) - marks['abort_returned_at'] > 0.15:
+      rec_facts.append('X:executor-kept-waiting-for-a-body-that-cannot-be-killed')
   for e in out['log']:
     if e and e[0] == 'aux-exc':
       # abort() reports nothing to the operator's thread; an exception out of it (e.g. from kill()) is a failure
